@@ -278,7 +278,8 @@ fn run_case<const N: usize>(rng: &mut Rng, sh: &mut Shard, case: u64) {
                 let (b, a) = (&before[i], &after[i]);
                 let el = (u16::from_le_bytes([bytes[14], bytes[15]]) & 0x7ff) as usize;
                 let ok = a.state == ST_RXDONE
-                    && a.first_pdu == b.first_pdu
+                    // the index marker either stays or is withdrawn (an answered slot no longer awaits)
+                    && (a.first_pdu == b.first_pdu || a.first_pdu == 0xff00)
                     && a.payload_len == b.payload_len
                     && a.bytes[..16] == b.bytes[..16]
                     && 16 + el <= a.bytes.len()
